@@ -4,6 +4,8 @@ import (
 	"fmt"
 	"strconv"
 	"strings"
+	"verif/lib/schemagen"
+	"verif/lib/typedmon"
 
 	cid "github.com/ipfs/go-cid"
 	"github.com/ipld/go-ipld-prime/datamodel"
@@ -71,7 +73,105 @@ func c14Resolve(g *graphgen.Graph, root model.Val, segs []string) (v model.Val, 
 	return cur, true, through
 }
 
+// c14Typed: paths through TYPED nodes. A bindnode node of a random type system (inferred or user-supplied Go
+// types; renames that collide with other fields' names among them) is walked at representation level and at
+// type level with the explore-all selector and with WalkLocal; every visited (path, node) must resolve from the
+// root by Get, by Focus and by stepwise LookupBySegment to a node that reads the same. (Round-4 seed C14-11: a
+// representation lookup that refuses a key its own iterator lists — C08 and C01 catch it as a lookup/iterator
+// disagreement; here it shows as a walk-reported path that does not resolve.)
+func c14Typed(c *fw.Ctx, rng *fw.RNG) {
+	ts := schemagen.Gen(rng, schemagen.Opts{Types: 4 + rng.Intn(5)})
+	lib, err := schemagen.ToLibrary(ts)
+	if err != nil {
+		return
+	}
+	eng := newBindEngine(lib)
+	if rng.Bool() {
+		eng = newShapedBindEngine(lib, ts, rng)
+	}
+	for _, t := range ts.Types {
+		if t.Name[0] != 'T' || (t.Kind != "struct" && t.Kind != "map" && t.Kind != "list" && t.Kind != "union") {
+			continue
+		}
+		typed, _ := eng.Proto(t.Name)
+		if typed == nil {
+			continue
+		}
+		tv := schemagen.GenValue(rng, ts, t, 0)
+		var o typedmon.Outcome
+		if typedmon.HasComplexKeys(ts, t) {
+			o = typedmon.FeedTyped(typed, ts, t, ts.TypeInput(t, tv))
+		} else {
+			o = typedmon.Feed(typed, ts.TypeInput(t, tv))
+		}
+		if !o.Accepted {
+			continue
+		}
+		for _, lvl := range []string{"representation", "type-level"} {
+			root := o.Node
+			if lvl == "representation" {
+				if _, err := ts.ReprOf(t, tv); err != nil {
+					continue
+				}
+				root = typedmon.Repr(o.Node)
+			} else if typedmon.HasComplexKeys(ts, t) {
+				continue // a struct key has no path segment
+			}
+			c.SetCase(func() any {
+				return map[string]any{"family": "typed " + lvl, "type_system": schemagen.Describe(ts), "type": t.Name, "engine": eng.Name(), "value": tv.Dump()}
+			})
+			readT := func(n datamodel.Node) model.Val {
+				return obs.ReadOut(n, obs.Options{Light: true, Typed: true, NoWrongKindProbes: true}).Val
+			}
+			check := func(how string, p datamodel.Path, n datamodel.Node) {
+				if n.IsAbsent() || n.Kind() == datamodel.Kind_Link {
+					return // an absent optional field is iterated at type level and is not a position; resolving a path loads a link it ends at
+				}
+				want := readT(n)
+				c.Count("typed_visits_resolved", 1)
+				var got datamodel.Node
+				var gerr error
+				if c.Guard("C14:typed:Get", func() { got, gerr = traversal.Get(root, p) }) {
+					return
+				}
+				if gerr != nil {
+					c.Deviate("C14:typed:visited-path-does-not-resolve:"+lvl, fmt.Sprintf("%s of a %s %s node (%s) visited <%s> = %s, Get of that path fails: %v", how, eng.Name(), t.Kind, lvl, p.String(), clipS(want.Dump(), 200), gerr))
+					return
+				}
+				if v := readT(got); !model.Equal(v, want) {
+					c.Deviate("C14:typed:path-addresses-other-node:"+lvl, fmt.Sprintf("%s visited <%s> = %s, Get returns %s", how, p.String(), clipS(want.Dump(), 200), clipS(v.Dump(), 200)))
+				}
+				cur := root
+				for _, seg := range p.Segments() {
+					next, err := cur.LookupBySegment(seg)
+					if err != nil {
+						c.Deviate("C14:typed:visited-path-does-not-resolve:stepwise:"+lvl, fmt.Sprintf("%s visited <%s>, LookupBySegment(%q) on the way fails: %v", how, p.String(), seg.String(), err))
+						return
+					}
+					cur = next
+				}
+			}
+			c.Guard("C14:typed:WalkAdv", func() {
+				traversal.WalkAdv(root, c11ExploreAllSel(), func(pg traversal.Progress, n datamodel.Node, _ traversal.VisitReason) error {
+					check("the explore-all walk", pg.Path, n)
+					return nil
+				})
+			})
+			c.Guard("C14:typed:WalkLocal", func() {
+				traversal.WalkLocal(root, func(pg traversal.Progress, n datamodel.Node) error {
+					check("WalkLocal", pg.Path, n)
+					return nil
+				})
+			})
+		}
+	}
+}
+
 func (c14) RunCase(c *fw.Ctx, rng *fw.RNG, batch, i int) {
+	if i%25 == 11 {
+		c14Typed(c, rng)
+		return
+	}
 	gopts := graphgen.Opts{MaxBlocks: 8, MaxDepth: 3, MaxWidth: 4, RawBlocks: true, OddKeys: true, NumLookalikes: true, Missing: 1}
 	sopts := selgen.Opts{MaxDepth: 4, NoSubset: true}
 	if deepCase(c, i) {
